@@ -2,7 +2,7 @@ CONSTANTS
  MaxLen = 2
  ReadSizes = {1, 5}
  MaxDrops = 1
- MaxFails = 1
+ MaxFails = 0
  MaxSeeks = 1
  MaxAgain = 0
  RetryLimit = 3
